@@ -16,6 +16,8 @@ def helpers_stages(ctx):
     rnd = random.Random(ctx.seed)
     # always: nothing exposed / everything exposed of each group; plus a seeded sample
     fixed = [k for k in kinds if k.endswith(":none") or k.count("+") >= 5 or (k.startswith("misc:") and k.count("+") == 3)]
+    # the subsets that force the MkdirAll and RemoveAll fallback algorithms with all their primitives available
+    fixed += [k for k in ("dir:Mkdir+Stat+Remove+ReadDir", "dir:Mkdir+Stat", "file:OpenFile") if k in kinds]
     rest = [k for k in kinds if k not in fixed]
     if ctx.tier == "quick":
         masks = fixed + rnd.sample(rest, 10)
